@@ -1,4 +1,5 @@
 SPECIFICATION Spec
 INVARIANT FormatIndependent
 INVARIANT FormatIsFastaOrFastq
+INVARIANT RefusalIndependent
 CHECK_DEADLOCK FALSE
